@@ -145,8 +145,8 @@ impl<'a> Runner<'a> {
                 let hit = { let h = self.hub.lock().unwrap(); h.trace.len() > before && h.trace.last().map(|l| l.starts_with(&prefix)).unwrap_or(false) };
                 if hit {
                     if storage {
-                        if let Some(st) = self.storage.clone() { if let Some(g) = st.try_lock() { self.contended += 1; let _ = self.poll_stream_once(); drop(g); } }
-                    } else if let Some(a) = self.app_set.clone() { if let Some(g) = a.try_lock() { self.contended += 1; let _ = self.poll_stream_once(); drop(g); } }
+                        if let Some(st) = self.storage.clone() { if let Some(g) = st.try_lock() { self.contended += 1; self.hub.lock().unwrap().embedder_lock = true; let _ = self.poll_stream_once(); self.hub.lock().unwrap().embedder_lock = false; drop(g); } }
+                    } else if let Some(a) = self.app_set.clone() { if let Some(g) = a.try_lock() { self.contended += 1; self.hub.lock().unwrap().embedder_lock = true; let _ = self.poll_stream_once(); self.hub.lock().unwrap().embedder_lock = false; drop(g); } }
                 }
             }
         }
